@@ -1,13 +1,22 @@
 #!/bin/bash
-# Applies each behaviour-preserving refactoring diff to /repo, runs all 20 quick checks (5 at a time), reverts.
-# Any report is a FALSE ALARM of the reporting check. Usage: tools/run_refactors.sh [dir with C*/R*.diff]
-D=${1:-/verif/refactors}
-mkdir -p /tmp/rf_ev/evidence; ln -sfn /verif/checker /tmp/rf_ev/checker; cp /verif/known-findings.txt /tmp/rf_ev/
-for diff in $(ls $D/C*/R*.diff | sort); do
+# Applies each behaviour-preserving refactoring diff to a scratch worktree of /repo (so concurrent runs on /repo are
+# not disturbed), runs the quick checks against it (5 at a time), reverts.
+# Any report is a FALSE ALARM of the reporting check.
+# Usage: tools/run_refactors.sh [-own] [dir with C*/R*.diff] [glob of diffs, default R*.diff]
+#   -own : run only the refactoring's own property check (fast first pass)
+OWN=0; if [ "$1" = "-own" ]; then OWN=1; shift; fi
+D=${1:-/verif/refactors}; G=${2:-R*.diff}
+W=/tmp/rf_repo_$$
+git -C /repo worktree add -q --detach $W HEAD || exit 2
+# carry over uncommitted state of /repo (normally none)
+mkdir -p /tmp/rf_ev_$$/evidence; ln -sfn /verif/checker /tmp/rf_ev_$$/checker; cp /verif/known-findings.txt /tmp/rf_ev_$$/
+for diff in $(ls $D/C*/$G | sort -V); do
   id=$(basename $(dirname $diff)); r=$(basename $diff .diff)
-  if ! git -C /repo apply --check $diff 2>/dev/null; then echo "REFACTOR $id/$r does-not-apply"; continue; fi
-  git -C /repo apply $diff
-  out=$(seq -w 1 20 | xargs -P 5 -I{} sh -c '/verif/bin/sdnsverif -verif /tmp/rf_ev -property C{} 2>&1 | grep "key=" | sed "s/^ */C{}: /"')
-  git -C /repo checkout -- .
+  if ! git -C $W apply --check $diff 2>/dev/null; then echo "REFACTOR $id/$r does-not-apply"; continue; fi
+  git -C $W apply $diff
+  if [ $OWN = 1 ]; then props=${id#C}; props=${props%%-*}; else props=$(seq -w 1 20); fi
+  out=$(echo $props | tr ' ' '\n' | xargs -P 5 -I{} sh -c "/verif/bin/sdnsverif -verif /tmp/rf_ev_$$ -repo $W -nomutants -property C{} 2>&1 | grep 'key=' | sed 's/^ */C{}: /'")
+  git -C $W checkout -- . ; git -C $W clean -fdq
   if [ -z "$out" ]; then echo "REFACTOR $id/$r silent"; else echo "REFACTOR $id/$r ALARM"; echo "$out" | sort | uniq | head -12; fi
 done
+git -C /repo worktree remove --force $W; rm -rf /tmp/rf_ev_$$
